@@ -26,12 +26,19 @@ type PoolT struct {
 type NodeT struct {
 	Name string `json:"name"`
 	IP   string `json:"ip"` // "" = node without InternalIP
+	// Dual: a dual-stack node: its status also lists a hostname, an external address and - after the IPv4 one - an IPv6 internal
+	// address. Node subnets are IPv4, so "the node's address" stays the IPv4 one
+	Dual bool `json:"dual,omitempty"`
 }
 
 func (n NodeT) Object() *corev1.Node {
 	node := &corev1.Node{ObjectMeta: metav1.ObjectMeta{Name: n.Name}}
 	if n.IP != "" {
 		node.Status.Addresses = []corev1.NodeAddress{{Type: corev1.NodeInternalIP, Address: n.IP}}
+		if n.Dual {
+			node.Status.Addresses = []corev1.NodeAddress{{Type: corev1.NodeHostName, Address: n.Name}, {Type: corev1.NodeExternalIP, Address: "203.0.113.7"},
+				{Type: corev1.NodeInternalIP, Address: n.IP}, {Type: corev1.NodeInternalIP, Address: "fd00::" + n.Name[1:]}}
+		}
 	}
 	return node
 }
@@ -142,6 +149,8 @@ type WL struct {
 	// Wide: a large index-named app: its three pod slots are the members 1, 10 and 11 (the key of x-1 is a string prefix of the keys
 	// of x-10 and x-11)
 	Wide bool `json:"wide,omitempty"`
+	// Unset: the object's spec.replicas field is left out whenever the workload has one replica (the API default)
+	Unset bool `json:"unset,omitempty"`
 }
 
 func (wl *WL) PodAnnotations() map[string]string {
